@@ -96,12 +96,17 @@ class Stats:
         self.budget_hit = False
         self.harness_error = None
         self.corner = 0
+        self.faults = {}  # name of an injected failing call -> [times it raised, times it returned]
 
     def merge(self, o):
         self.evaluations += o.evaluations
         self.shrink_evaluations += o.shrink_evaluations
         self.nontrivial.update(o.nontrivial)
         self.corner += o.corner
+        for k, v in o.faults.items():
+            c = self.faults.setdefault(k, [0, 0])
+            c[0] += v[0]
+            c[1] += v[1]
         for d, s in ((self.labels, o.labels), (self.filtered, o.filtered), (self.excluded_known, o.excluded_known)):
             for k, v in s.items():
                 d[k] = d.get(k, 0) + v
@@ -173,6 +178,20 @@ def evaluate(mod, case, stats, known_open, shrinking=False, corner=False):
 
             with warnings.catch_warnings():
                 warnings.simplefilter("ignore")
+                # fault interlude: calls into the anchored functions that are expected to be REJECTED (invalid argument,
+                # missing file, ...) run before the case proper; whatever they leave behind - module or class level state,
+                # stray files in the working directory, changed library options - must not make the valid calls of the
+                # case violate the statement. The interlude is a pure function of the case, so a replay repeats it.
+                if hasattr(mod, "fault_calls"):
+                    for fname, thunk in mod.fault_calls(case):
+                        c = stats.faults.setdefault(fname, [0, 0])
+                        try:
+                            thunk()
+                            c[1] += 1
+                        except _CaseTimeout:
+                            raise
+                        except Exception:
+                            c[0] += 1
                 out = mod.run(case)
     except _CaseTimeout as e:
         frames = [f for f in traceback.extract_tb(e.__traceback__) if (os.sep + "cryocat" + os.sep) in f.filename]
@@ -360,6 +379,7 @@ def write_evidence(mod, tier, seed, stats, wall, extra=None):
             "exhaustive": False,
             "exhaustive_subdomains": getattr(mod, "EXHAUSTIVE", None) if tier == "thorough" else None,
             "violation_signatures": {k: v["count"] for k, v in stats.buckets.items()},
+            "fault_interludes": {k: {"raised": v[0], "returned": v[1]} for k, v in sorted(stats.faults.items())},
         },
         "assumptions": list(getattr(mod, "ASSUMPTIONS", [])),
         "wall_s": round(wall, 2),
